@@ -132,6 +132,105 @@ def one_sequence(args):
         shutil.rmtree(df, ignore_errors=True)
 
 
+def delayed_injection_part(out, wd, seed, rounds):
+    """follower path on real processes while the node is still starting: the raft core runs before the bean factory has
+    injected the apply actor (existing window, widened by the RNACOS_VERIF_DELAY_INJECT_MS hook), so the leader's
+    AppendEntries reach a follower whose apply manager must queue the requests and apply them, in log order, once it is
+    wired. Non-commuting writes (several publishes / removes of the same keys) are made while the follower is down and
+    while it starts; afterwards its contents and change histories must equal the leader's."""
+    import procrig
+    import time
+    common.build(need_bin=True)
+    rnd = random.Random(seed * 7919 + 17)
+    facts = {"rounds": 0, "writes_while_down": 0, "writes_while_starting": 0, "keys_compared": 0, }
+    cl = procrig.Cluster(os.path.join(wd, "dly"), 3, env={"RUST_LOG": "warn"})
+    GROUP = "c07dly"
+    try:
+        cl.start()
+        serial = 0
+        tok = {}
+
+        def view(nd, keys):
+            res = {}
+            if nd.id not in tok:
+                tok[nd.id] = nd.console_login("admin", "admin", wait=10)[0]
+            for k in keys:
+                r = nd.get("/nacos/v1/cs/configs", params={"dataId": k, "group": GROUP}, timeout=5)
+                c = r.text() if r.status == 200 else None if r.status == 404 else "<error %s>" % r.status
+                h = nd.console("GET", "/rnacos/api/console/config/history", tok[nd.id], params={"dataId": k, "group": GROUP, "pageNo": 1, "pageSize": 1000}, timeout=5)
+                j = (h.json() or {}).get("list") if h.status == 200 else None
+                res[k] = [c, [[it.get("id"), it.get("content")] for it in reversed(j)] if isinstance(j, list) else "<history %s>" % h.status]
+            return res
+
+        for rd in range(rounds):
+            leader = cl.leader()
+            if leader is None:
+                raise common.Inconclusive("no leader before round %d" % rd)
+            follower = rnd.choice([n for n in cl.nodes if n is not leader])
+            other = [n for n in cl.nodes if n is not leader and n is not follower][0]
+            keys = ["dly%d-%d" % (rd, i) for i in range(2)]
+            log = []
+
+            def write(via):
+                nonlocal serial
+                serial += 1
+                k = rnd.choice(keys)
+                if rnd.random() < 0.2 and any(x[0] == k and x[1] for x in log):
+                    r = via.delete("/nacos/v1/cs/configs", params={"dataId": k, "group": GROUP}, timeout=5)
+                    okw = r.status == 200
+                    log.append((k, None, okw))
+                else:
+                    r = via.post("/nacos/v1/cs/configs", form={"dataId": k, "group": GROUP, "content": "r%d-s%d" % (rd, serial)}, timeout=5)
+                    okw = r.status == 200 and r.text().strip() == "true"
+                    log.append((k, "r%d-s%d" % (rd, serial), okw))
+                return okw
+            follower.kill()
+            for _ in range(rnd.randrange(2, 7)):
+                facts["writes_while_down"] += 1 if write(rnd.choice([leader, other])) else 0
+            delay = rnd.choice([1500, 2500, 3500])
+            follower.env_extra["RNACOS_VERIF_DELAY_INJECT_MS"] = str(delay)
+            follower.start(wait=False)
+            t_end = time.time() + delay / 1000.0 + 0.4
+            while time.time() < t_end:
+                try:
+                    facts["writes_while_starting"] += 1 if write(rnd.choice([leader, leader, other])) else 0
+                except OSError:
+                    pass
+                time.sleep(rnd.choice([0.05, 0.12, 0.25]))
+            follower.wait_ready(40)
+            follower.env_extra.pop("RNACOS_VERIF_DELAY_INJECT_MS", None)
+            tok.pop(follower.id, None)
+            # bounded convergence: the follower's answers equal the leader's for every key of the round
+            deadline = time.time() + 20
+            while True:
+                try:
+                    lv, fv = view(leader, keys), view(follower, keys)
+                except OSError as e:
+                    lv, fv = None, "<%r>" % e
+                if lv is not None and lv == fv:
+                    break
+                if time.time() > deadline:
+                    break
+                time.sleep(0.5)
+            facts["rounds"] += 1
+            if lv is None:
+                raise common.Inconclusive("leader / follower not readable after the delayed start: %s" % fv)
+            facts["keys_compared"] += len(keys)
+            if lv != fv:
+                k = next(k for k in keys if lv[k] != fv[k])
+                what = "content" if lv[k][0] != fv[k][0] else "history-order-or-ids"
+                out.violation("follower-vs-leader/delayed-injection/%s" % what,
+                              {"round": rd, "delay_ms": delay, "key": k, "leader": lv[k], "follower": fv[k], "writes_of_round": log[-30:], "leader_node": leader.id, "follower_node": follower.id})
+                break
+            out.shape("delayed-injection/delay%d/%s" % (delay, "with-remove" if any(x[1] is None for x in log) else "publishes"))
+        return facts
+    except common.Inconclusive as e:
+        facts["inconclusive"] = str(e)[:300]
+        return facts
+    finally:
+        cl.kill_all()
+
+
 def run(tier, seed):
     common.build()
     wd = common.workdir("c07")
@@ -159,6 +258,7 @@ def run(tier, seed):
             if len(out.samples) < 3:
                 out.samples.append({k: r[k] for k in ("seed", "n", "kinds", "subkinds", "split_pattern", "compared_items") if k in r})
         out.extra["kinds_seen"] = sorted(kinds)
+        out.extra["delayed_injection"] = delayed_injection_part(out, wd, seed, 3 if tier == "quick" else 16)
         out.min_nontrivial = 4
         out.assumptions = ["NodeAddr / Members requests are left out (they rewrite raft membership files; C05)",
                            "instance timestamps and health are not part of the dump"]
